@@ -183,6 +183,20 @@ def r2_range_filter(repo=None, rid="C12.R2"):
             if in_ffill:
                 lookbacks.append(c)
     if not lookbacks:
+        # positive evidence for a look-back that cannot reach far enough: the files come from a *listing* bounded below
+        # (lsdrf / ilsdrf with a start time) - the latest sample at or before the requested start may lie in any earlier file
+        for c in ast.walk(f):
+            if isinstance(c, ast.Call) and (pyfront.call_name(c) or "").split(".")[-1] in ("lsdrf", "ilsdrf"):
+                in_ffill = any(isinstance(a, ast.If) and any(isinstance(x, ast.Name) and x.id == "method" for x in ast.walk(a.test))
+                               for a in _ancestors(rv, c))
+                st = pyfront.kwarg(c, "starttime")
+                if in_ffill and st is not None and not (isinstance(st, ast.Constant) and st.value is None):
+                    r.violation(m.rel, q, norm(ast.unparse(c))[:80], "the forward-fill look-back takes its files from a listing that is bounded "
+                                "below (`starttime=%s`): the latest sample at or before the requested start can lie in any earlier file "
+                                "(the file covering the start may hold only later samples), and is then not found although it was "
+                                "before a later write" % norm(ast.unparse(st))[:40], line=c.lineno)
+                    r.guard(1)
+                    return r
         raise AnalysisError("%s: the forward-fill candidate-file call (self.%s inside the branch on `method`) was not found" % (q, ro.filelist_name))
     alias_env = pyutil.single_alias_env(f)
     for c in lookbacks:
@@ -250,6 +264,35 @@ def r2_range_filter(repo=None, rid="C12.R2"):
                     and n.value.generators[0].target.id == arr and isinstance(n.value.elt, ast.Name) and n.value.elt.id == arr \
                     and n.value.generators[0].ifs:
                 sel = [n]
+    # the list the filter is applied to is the file's complete list of samples: between its definition and the `if is_edge`
+    # nothing removes elements from it (a cut to "the newest sample only" made *before* the range filter keeps a sample outside the
+    # range and drops the newest one inside it)
+    if sel:
+        listvar = sel[0].targets[0].id
+        cuts = []
+        for n in ast.walk(am):
+            if any(n is y for y in ast.walk(ifs[0])):
+                continue
+            if getattr(n, "lineno", 10 ** 9) > ifs[0].lineno:
+                continue
+            if isinstance(n, ast.Delete) and any(isinstance(t, ast.Subscript) and isinstance(t.value, ast.Name) and t.value.id == listvar for t in n.targets):
+                cuts.append(n)
+            elif isinstance(n, ast.Assign) and any(isinstance(t, ast.Name) and t.id == listvar for t in n.targets) and isinstance(n.value, ast.Subscript) \
+                    and isinstance(n.value.value, ast.Name) and n.value.value.id == listvar:
+                cuts.append(n)
+            elif isinstance(n, ast.Assign) and any(isinstance(t, ast.Subscript) and isinstance(t.value, ast.Name) and t.value.id == listvar for t in n.targets):
+                cuts.append(n)
+            elif isinstance(n, ast.Call) and isinstance(n.func, ast.Attribute) and n.func.attr in ("pop", "remove", "clear") \
+                    and isinstance(n.func.value, ast.Name) and n.func.value.id == listvar:
+                cuts.append(n)
+        if cuts:
+            c0 = cuts[0]
+            r.violation(m.rel, ro.add, norm(ast.unparse(c0))[:80], "elements are removed from the file's list of samples `%s` before the range "
+                        "filter `%s <= idx <= %s` is applied: what is filtered is no longer every sample of the file - with 'newest only' the "
+                        "newest sample of the *file* is kept, which lies after the requested range when two samples share a file, and the "
+                        "newest sample inside the range is lost" % (listvar, p_lo, p_hi), line=c0.lineno)
+            r.guard(3)
+            return r
     if cmps[p_lo] == (arr, "GtE") and cmps[p_hi] == (arr, "LtE") and sel:
         r.ok("%s:%s %s" % (m.rel, ifs[0].lineno, ro.add), "is_edge selects %s <= idx <= %s (inclusive on both ends)" % (p_lo, p_hi))
     else:
